@@ -3,14 +3,23 @@
 // The other end of the socketpair is a scripted raw peer that is independent of muduo: frames are
 // built and decoded by hand (4-byte big-endian length, "RPC0", RpcMessage bytes, adler32 by zlib).
 //
-// case <id> svc=<0|1>     svc=0: channel made like examples/protobuf/rpc/client.cc (new RpcChannel; setConnection)
+// case <id> svc=<0|1> [obs=1]
+//                         svc=0: channel made like examples/protobuf/rpc/client.cc (new RpcChannel; setConnection)
 //                         svc=1: channel made by the real RpcServer::onConnection (registerService(TestService))
+//                         obs=1: observation mode: a CallMethod with response == NULL (outside the contract of
+//                                google::protobuf::RpcChannel::CallMethod) is made all the same; without it the
+//                                driver, like the model, REJECTS such a call (prints `rejected`, does nothing)
 //   CALL  c r d meth req            CallMethod on the loop thread (r/d: response / done non-NULL)
 //   CALLA c r d meth req body..     same, and the peer answers this very call the moment its REQUEST frame
 //                                   reaches the wire (from inside write(2), --wrap=write): the fastest correct peer
 //   F t c r d meth req | R t | S t  helper thread t: CallMethod cut at its micro-steps (stalled at the channel
 //                                   mutex = after the id fetch; at the loop mutex = after registering, before the
-//                                   send is queued; S lets it finish and runs the loop's pending functors)
+//                                   send is queued; S lets it finish and runs the loop's pending functors).
+//                                   A helper is also parked before its SECOND (and any later) atomic access to
+//                                   id_ within one CallMethod (C19_atomic_hook.h): the real code makes exactly one
+//                                   (fetch-and-add), so this point is never reached; an id obtained by a read
+//                                   followed by an increment is cut there, and the schedule F 1, F 2 then hands
+//                                   both threads the same id.
 //   BURST n k base                  n helper threads x k calls each, really concurrent (id race)
 //   RESP id body..                  peer sends a RESPONSE frame;  body ::= p=<payload> | e=<ErrorCode name>
 //   REQ id svc meth payload         peer sends a REQUEST frame ("-" = field absent)
@@ -19,6 +28,7 @@
 // end
 // payload ::= V<hex> | V-  (TestMsg with that data, serialized by protobuf)  |  X<hex> (raw bytes protobuf rejects) | -
 // One output line per op:  ok|rejected ev=<e1,e2,..> next=<id_> outs=<id:rXdY,..> pend=<k,..>
+#include "C19_atomic_hook.h"      // first: muduo/base/Atomic.h with the hook (see there)
 #include <errno.h>
 #include <fcntl.h>
 #include <poll.h>
@@ -299,6 +309,25 @@ extern "C" int __wrap_pthread_mutex_lock(pthread_mutex_t* m)
   return __real_pthread_mutex_lock(m);
 }
 
+// every atomic access (through the two builtins Atomic.h uses) to the channel's id_
+static std::atomic<long> g_idAccesses(0);
+static thread_local int t_idAccesses = 0;
+
+extern "C" void c19_atomic_access(const volatile void* addr)
+{
+  RpcChannel* ch = g_chan;
+  if (ch == NULL || addr != static_cast<const volatile void*>(&ch->id_)) return;
+  g_idAccesses++;
+  if (t_stall && !g_noStall.load())
+  {
+    if (++t_idAccesses >= 2)
+    {
+      sem_post(&g_reached);
+      sem_wait(t_release);
+    }
+  }
+}
+
 // ------------------------------------------------------------------ the test service
 struct Deferred { c19::TestMsg* response; google::protobuf::Closure* done; bool completed; };
 static std::map<int, Deferred> g_deferred;
@@ -394,6 +423,7 @@ int main()
   RpcChannelPtr ownChannel;
   std::map<int, Helper*> helpers;
   bool svc = false;
+  bool obs = false;          // observation mode: out-of-contract calls (response == NULL) are made all the same
   string line;
   while (std::getline(std::cin, line))
   {
@@ -411,7 +441,9 @@ int main()
       g_wire.clear();
       g_tok = 0;
       g_noStall = false;
-      svc = (w.size() > 2 && w[2] == "svc=1");
+      svc = false;
+      obs = false;
+      for (size_t i = 2; i < w.size(); ++i) { if (w[i] == "svc=1") svc = true; if (w[i] == "obs=1") obs = true; }
       InetAddress a(1), b(2);
       g_conn.reset(new TcpConnection(&loop, "c" + w[1], sv[0], a, b));
       g_conn->setCloseCallback([&loop](const TcpConnectionPtr& c) {
@@ -519,12 +551,22 @@ int main()
         ans.set_id(0);
         ok = bodyOf(w, 6, &ans, &corrupt);
       }
-      if (!ok) rejected = true;
+      // response == NULL violates the contract of google::protobuf::RpcChannel::CallMethod: not made
+      if (!ok || (w[2] != "1" && !obs)) rejected = true;
       else
       {
         CallRec* rec = newCall(w[1], w[2] == "1", w[3] == "1");
         if (k == "CALLA") { g_answer = ans; g_answerCorrupt = corrupt; g_answerArmed = true; }
+        int64_t idBefore = g_chan->id_.get();
+        long seenBefore = g_idAccesses.load();
         doCall(rec, w[4], vh::bytesOfSpec(w[5]));
+        long seenAfter = g_idAccesses.load();
+        if (g_chan->id_.get() != idBefore && seenAfter == seenBefore)
+        {
+          // the forced schedules of F/R/S rely on seeing the accesses to id_
+          fprintf(stderr, "harness: id_ changed but no atomic access to it went through C19_atomic_hook.h\n");
+          abort();
+        }
         g_answerArmed = false;
         rec->registered = true;
       }
@@ -532,7 +574,7 @@ int main()
     else if (k == "F")
     {
       int t = atoi(w[1].c_str());
-      if (helpers.count(t)) rejected = true;
+      if (helpers.count(t) || (w[3] != "1" && !obs)) rejected = true;
       else
       {
         Helper* h = new Helper;
